@@ -3,7 +3,7 @@ intersection of SQLite's grammar and sqlittle's, plus a malformed stream.
 Every choice comes from the rng given."""
 import random
 
-NAMES = ["a", "b", "c", "d", "e", "id", "name", "val", "Key2", "x1", "Mixed", "col_7"]
+NAMES = ["a", "b", "c", "d", "e", "id", "name", "val", "Key2", "x1", "Mixed", "col_7", "é", "über", "名前", "caf_é"]
 TYPES = ["", "", "INT", "INTEGER", "integer", "Integer", "TEXT", "REAL", "BLOB", "VARCHAR(10)", "DECIMAL(10,2)", "BIGINT", "NUMERIC"]
 COLLS = ["binary", "nocase", "rtrim", "NOCASE", "Binary"]
 
